@@ -29,10 +29,11 @@ struct Case
   double phi = 0, theta = 0, ax = 0, ay = 0, az = 1, axis_scale = 1; // axis: by angles (radians) and the derived vector
   double ap1 = 0, ap2 = -1; // radians; ap2 < 0 : circular
   uint64_t opseed = 0;
+  uint64_t prior = 0;       // != 0: the op object was configured before with the case gen_case(prior) (and not reset): re-configuration must behave like a fresh op
   std::string json() const
   {
     char b[600];
-    snprintf(b, sizeof b, "{\"synthetic\":%s,\"kind\":\"%s\",\"name\":\"%s\",\"level\":%d,\"mode\":%d,\"evseed\":\"%llu\",\"ep\":%d,\"code\":%d,\"rank\":%d,\"err_missing\":%s,\"phi\":\"%a\",\"theta\":\"%a\",\"axis_scale\":\"%a\",\"ap1\":\"%a\",\"ap2\":\"%a\",\"opseed\":\"%llu\"}",
+    snprintf(b, sizeof b, "{\"synthetic\":%s,\"kind\":\"%s\",\"name\":\"%s\",\"level\":%d,\"mode\":%d,\"evseed\":\"%llu\",\"ep\":%d,\"code\":%d,\"rank\":%d,\"err_missing\":%s,\"phi\":\"%a\",\"theta\":\"%a\",\"axis_scale\":\"%a\",\"ap1\":\"%a\",\"ap2\":\"%a\",\"opseed\":\"%llu\",\"prior\":\"%llu\"}",
              synthetic ? "true" : "false", kind.c_str(), name.c_str(), level, mode, (unsigned long long)evseed, ep, code, rank, err_missing ? "true" : "false", phi, theta, axis_scale, ap1, ap2, (unsigned long long)opseed);
     return b;
   }
@@ -41,7 +42,7 @@ struct Case
     Case c; c.synthetic = j.at("synthetic").b; c.kind = j.s("kind"); c.name = j.s("name"); c.level = (int)j.n("level", 0); c.mode = (int)j.n("mode", 0);
     c.evseed = strtoull(j.s("evseed").c_str(), nullptr, 10); c.ep = (int)j.n("ep", 0); c.code = (int)j.n("code", 0); c.rank = (int)j.n("rank", -1); c.err_missing = j.at("err_missing").b;
     c.phi = strtod(j.s("phi").c_str(), nullptr); c.theta = strtod(j.s("theta").c_str(), nullptr); c.axis_scale = strtod(j.s("axis_scale").c_str(), nullptr);
-    c.ap1 = strtod(j.s("ap1").c_str(), nullptr); c.ap2 = strtod(j.s("ap2").c_str(), nullptr); c.opseed = strtoull(j.s("opseed").c_str(), nullptr, 10);
+    c.ap1 = strtod(j.s("ap1").c_str(), nullptr); c.ap2 = strtod(j.s("ap2").c_str(), nullptr); c.opseed = strtoull(j.s("opseed").c_str(), nullptr, 10); c.prior = strtoull(j.s("prior", "0").c_str(), nullptr, 10);
     c.derive(); return c;
   }
   void derive() { ax = axis_scale * std::cos(phi) * std::sin(theta); ay = axis_scale * std::sin(phi) * std::sin(theta); az = axis_scale * std::cos(theta); }
@@ -63,6 +64,14 @@ static void setup_op(MDL & op, const Case & c)
   case 3: op.set_with_aperture_rectangular_cut(code, c.rank, c.ax, c.ay, c.az, c.ap1, c.ap2, c.err_missing); break;
   default: op.set_with_aperture_rectangular_cut(code, c.rank, c.phi, c.theta, c.ap1, c.ap2, c.err_missing); break;
   }
+}
+
+static Case gen_case(uint64_t h);
+// configure the op for the case; when the case carries a prior configuration, apply that one first to the same object (no reset)
+static void setup_op_hist(MDL & op, const Case & c)
+{
+  if (c.prior) { Case p = gen_case(c.prior); p.prior = 0; try { setup_op(op, p); } catch (std::exception &) {} }
+  setup_op(op, c);
 }
 
 static void synth_event(bxdecay0::event & ev, uint64_t seed)
@@ -112,7 +121,7 @@ static Res check_case(const Case & c)
   // ---- E0 and the position of the tape after the decay
   bxdecay0::event e0; Tape tape; tape.seed = c.opseed; size_t pos_after = 0;
   std::shared_ptr<MDL> op(new MDL);
-  try { setup_op(*op, c); } catch (std::exception & e) { r.skipped = true; r.msg = e.what(); return r; }
+  try { setup_op_hist(*op, c); } catch (std::exception & e) { r.skipped = true; r.msg = e.what(); return r; }
   bxdecay0::event e1;
   if (c.synthetic) {
     synth_event(e0, c.evseed); e1 = e0;
@@ -131,7 +140,7 @@ static Res check_case(const Case & c)
     try { g1.shoot(r1, e1); } catch (TapeOverrun &) { return fail("unbounded", "shot with operation consumed more than " + std::to_string(LIM) + " deviates"); } catch (std::exception & e) { threw = true; what = e.what(); }
     if (threw) { r.msg = what; e1 = e0; goto missing_check; }
     // E1 must be the operation applied to E0 with the tape suffix: the decay consumed exactly the deviates it consumes without the op
-    MDL op2; setup_op(op2, c); bxdecay0::event e2 = e0; TapeRandom r2(tape, pos_after, LIM); op2(r2, e2);
+    MDL op2; setup_op_hist(op2, c); bxdecay0::event e2 = e0; TapeRandom r2(tape, pos_after, LIM); op2(r2, e2);
     const auto & p1 = e1.get_particles(); const auto & p2 = e2.get_particles();
     if (p1.size() != p2.size()) return fail("decay-sample-changed", "particle count with op " + std::to_string(p1.size()) + " vs op applied afterwards " + std::to_string(p2.size()));
     for (size_t i = 0; i < p1.size(); i++) {
@@ -260,6 +269,7 @@ static Case gen_case(uint64_t h)
   bool rect = (c.ep == 3 || c.ep == 4) || (c.ep == 0 && r.chance(0.5));
   if (rect) { c.ap1 = r.uniform(0.01, M_PI / 2 - 0.01); c.ap2 = r.uniform(0.01, M_PI / 2 - 0.01); if (r.chance(0.3)) c.ap2 = c.ap1 * r.uniform(0.05, 0.5); }
   else { int k = r.range(0, 5); c.ap1 = k == 0 ? 0.0 : (k == 1 ? M_PI * (1 - std::pow(10.0, r.uniform(-9, -2))) : (k == 2 ? std::pow(10.0, r.uniform(-9, -1)) : r.uniform(0, M_PI * 0.999))); c.ap2 = -1; }
+  if (r.chance(0.35)) c.prior = 1 + r.next() % 1000000007ULL;
   c.derive();
   return c;
 }
@@ -300,7 +310,8 @@ int main(int argc, char ** argv)
         rep.failures.push_back({sig, r.msg, path});
         continue;
       }
-      if (!r.nt.empty()) rep.nt("ep" + std::to_string(meta ? 0 : c.ep) + "|" + r.nt);
+      if (!r.nt.empty()) rep.nt("ep" + std::to_string(meta ? 0 : c.ep) + "|" + r.nt + (c.prior && !meta ? "|reconfigured" : ""));
+      if (c.prior && !meta) rep.label("op-object-reconfigured");
       if (rep.samples.size() < 5 && k % 1013 == 0) rep.sample(c.json());
     }
   } catch (std::exception & e) { fprintf(res, "HARNESS-ERROR %s\n", e.what()); fflush(res); return 2; }
